@@ -30,7 +30,11 @@ type c20Server struct {
 	srv     *http.Server
 }
 
+// v1 is longer than v2 (an in-place overwrite without truncation leaves a tail)
 func c20Content(v string) string {
+	if v == "v1" {
+		return "version: '3'\ntasks:\n  show:\n    cmds:\n      - echo REMOTE-v1\n      - echo EXTRA-v1\n  other:\n    cmds:\n      - echo OTHER-v1\n"
+	}
 	return "version: '3'\ntasks:\n  show:\n    cmds:\n      - echo REMOTE-" + v + "\n"
 }
 
@@ -122,6 +126,15 @@ func cacheInfo(dir string) (ver string, fresh bool, exists bool) {
 		}
 	}
 	return ver, fresh, true
+}
+
+func cacheInfoOf(s snapshot) (string, bool, bool) {
+	for n := range s {
+		if strings.HasSuffix(n, ".yaml") {
+			return "", false, true
+		}
+	}
+	return "", false, false
 }
 
 func (st *c20State) key(dir string) string {
@@ -220,9 +233,9 @@ func c20Unit(tier string) *Unit {
 		var samples []any
 		exhaustive := true
 		depth := 0
-		maxDepth := 4
+		maxDepth := 5
 		if tier == "thorough" {
-			maxDepth = 8
+			maxDepth = 9
 		}
 		for ; depth < maxDepth && len(frontier) > 0; depth++ {
 			var next []*c20State
@@ -250,6 +263,14 @@ func c20Unit(tier string) *Unit {
 						os.WriteFile(t, []byte(time.Now().UTC().Add(-3*time.Hour).Format(time.RFC3339)), 0o644)
 					}
 				}})
+				if _, _, ex := cacheInfoOf(st.cache); ex {
+					evs = append(evs, ev{"killed-before-cached-file-was-written", func(ns *c20State) {
+						ys, _ := filepath.Glob(filepath.Join(remoteDir, "*.yaml"))
+						for _, y := range ys {
+							os.Remove(y)
+						}
+					}})
+				}
 				for _, inv := range invs {
 					inv := inv
 					evs = append(evs, ev{inv.name, func(ns *c20State) {
@@ -271,10 +292,14 @@ func c20Unit(tier string) *Unit {
 						cver, cfresh, cex := cacheInfo(dir)
 						so, se, rc := RunCLI(dir, []string{"TASK_X_REMOTE_TASKFILES=1"}, "", args...)
 						ran := ""
-						if strings.Contains(so, "REMOTE-v1") {
+						has1 := strings.Contains(so, "-v1")
+						has2 := strings.Contains(so, "-v2")
+						switch {
+						case has1 && has2:
+							ran = "mixed-v1-v2"
+						case has1:
 							ran = "v1"
-						}
-						if strings.Contains(so, "REMOTE-v2") {
+						case has2:
 							ran = "v2"
 						}
 						hist := append(append([]string{}, ns.hist...), inv.name)
@@ -316,6 +341,13 @@ func c20Unit(tier string) *Unit {
 						// approved content on a reachable server runs
 						if ns.mode == "up" && !inv.offline && (ns.content == ns.approved || inv.yes) && rc != 0 {
 							add(vlab.V("C20", "approved_content_did_not_run", fmt.Sprintf("%s:got%d", tag, rc), ctx), hist)
+						}
+						// a successful online run that had no cached file to read must have downloaded
+						// it: afterwards the cache holds that copy
+						if rc == 0 && !cex && !inv.offline && (ran == "v1" || ran == "v2") {
+							if nver, _, nex := cacheInfo(dir); !nex || nver != ran {
+								add(vlab.V("C20", "download_not_cached", tag, fmt.Sprintf("downloaded and ran %s but the cache holds exists=%v %q afterwards: %s", ran, nex, nver, ctx)), hist)
+							}
 						}
 						// no approval possible -> nothing new may be recorded as approved
 						if ran != "" && inv.yes && !inv.offline && ns.mode == "up" && ran == ns.content {
